@@ -111,6 +111,7 @@ const QUICK: &[&str] = &[
     "babybear_d4_p2w16/batch/fri/prep_shorter_than_main/fri_testing",
     "babybear_d4_p2w16/batch/fri/one_row_instances/fri_testing",
     "babybear_d4_p2w16/uni/fri/periodic8/fri_testing",
+    "babybear_d4_p2w16/uni/fri/add_nonext8/fri_testing",
     "babybear_d4_p2w16/uni/hiding_fri/fib8/fri_testing",
     "babybear_d4_p2w16/batch/hiding_fri/lookups_local_global/fri_testing",
     "koalabear_d4_p2w16/uni/fri/mul_prep/fri_testing",
@@ -176,6 +177,8 @@ pub fn catalogue() -> Vec<FixtureSpec> {
     // an AIR with periodic columns (periods 2 and 4) under the uni-STARK verifier
     uni!(v, bb, false, UAir::Periodic, "periodic8", 8, t.clone());
     uni!(v, bb, false, UAir::Periodic, "periodic16", 16, b1.clone());
+    // an AIR that declares no next-row access under the uni-STARK verifier (no trace_next opening)
+    uni!(v, bb, false, UAir::AddNoNext, "add_nonext8", 8, t.clone());
     batch!(v, bb, false, one_row_instances(), "one_row_instances", t.clone());
     batch!(v, bb, false, one_row_instances(), "one_row_instances", c1.clone());
     // known finding: uni-STARK circuit does not observe the FRI-level random openings
